@@ -4,6 +4,8 @@ import (
 	"fmt"
 	"go/constant"
 	"go/token"
+	"go/types"
+	"strings"
 
 	"golang.org/x/tools/go/ssa"
 
@@ -420,4 +422,120 @@ func c07(c *Ctx) {
 		}
 	}
 	c.R.Min("C07.R6", 2, "GetResource, its closure")
+	c07privateGroup(c)
+	c07sharedValue(c)
+}
+
+// c07privateGroup (C07.R7): every ResourceManager owns its flight group. The flight key is only the
+// resource key, so two managers sharing one group join each other's creations: a caller of manager
+// B is handed A's resource, B stores nothing, and the next caller of B creates a second instance
+// (seed r3-C07-2). The field must be set from a NewSingleFlight() call made for this manager.
+func c07privateGroup(c *Ctx) {
+	rule := "C07.R7"
+	var bad []string
+	stores := 0
+	for _, pk := range c.P.Pkgs {
+		rel := strings.TrimPrefix(pk.PkgPath, mod)
+		for _, fn := range c.P.AllFuncs(rel) {
+			for _, b := range fn.Blocks {
+				for _, ins := range b.Instrs {
+					st, ok := ins.(*ssa.Store)
+					if !ok {
+						continue
+					}
+					fa, ok := st.Addr.(*ssa.FieldAddr)
+					if !ok {
+						continue
+					}
+					pt, ok := fa.X.Type().Underlying().(*types.Pointer)
+					if !ok || typeString(pt.Elem()) != "core/syncx.ResourceManager" {
+						continue
+					}
+					ft := pt.Elem().Underlying().(*types.Struct).Field(fa.Field).Type()
+					if typeString(ft) != "core/syncx.SingleFlight" {
+						continue
+					}
+					stores++
+					fresh := false
+					for _, d := range reachingDefs(st.Val, fn, 0) {
+						if call, ok := d.(*ssa.Call); ok && call.Parent() == fn {
+							if sc := call.Call.StaticCallee(); sc != nil && sc.Name() == "NewSingleFlight" {
+								fresh = true
+								continue
+							}
+						}
+						fresh = false
+						bad = append(bad, fmt.Sprintf("%s: %s gives the manager a flight group that is not created for it (%s): managers sharing a group join each other's creations for equal keys", c.P.Pos(st.Pos()), fn.Name(), describeDef(c, d)))
+						break
+					}
+					_ = fresh
+				}
+			}
+		}
+	}
+	sortStrings(bad)
+	o := c.R.Check(len(bad) == 0 && stores >= 1, rule, "core/syncx.ResourceManager.singleFlight#private", "a ResourceManager's flight group is a NewSingleFlight() made for that manager", "-", strings.Join(bad, "; "), bad, stores)
+	o.Sites = stores
+}
+
+// c07sharedValue (C07.R8): what a flight shares is produced inside the flight. A closure handed to
+// SingleFlight.Do/DoEx that returns (an interface wrapping) a pointer-like variable of the enclosing
+// caller shares an alias of the leader's own variable: the other callers read it after the flight
+// has ended — i.e. after the leading call may have returned and moved on — so they receive whatever
+// the leader has made of it meanwhile, not the result of the overlapping execution (seed r3-C07-3).
+func c07sharedValue(c *Ctx) {
+	rule := "C07.R8"
+	var bad []string
+	sites := 0
+	pointerLike := func(t types.Type) bool {
+		switch t.Underlying().(type) {
+		case *types.Pointer, *types.Map, *types.Slice, *types.Chan, *types.Interface:
+			return true
+		}
+		return false
+	}
+	for _, pk := range c.P.Pkgs {
+		rel := strings.TrimPrefix(pk.PkgPath, mod)
+		for _, fn := range c.P.AllFuncs(rel) {
+			for _, b := range fn.Blocks {
+				for _, ins := range b.Instrs {
+					call, ok := ins.(ssa.CallInstruction)
+					if !ok {
+						continue
+					}
+					cc := call.Common()
+					if !cc.IsInvoke() || typeString(cc.Value.Type()) != "core/syncx.SingleFlight" {
+						continue
+					}
+					for _, a := range cc.Args {
+						mc, ok := a.(*ssa.MakeClosure)
+						if !ok {
+							continue
+						}
+						cl := mc.Fn.(*ssa.Function)
+						sites++
+						for _, cb := range cl.Blocks {
+							for _, ci := range cb.Instrs {
+								ret, ok := ci.(*ssa.Return)
+								if !ok || len(ret.Results) == 0 {
+									continue
+								}
+								for _, d := range reachingDefs(ret.Results[0], cl, 0) {
+									// a value that lives outside the closure: parameter of an enclosing function, or
+									// the content of a captured variable that the closure did not assign itself
+									if prm, ok := d.(*ssa.Parameter); ok && prm.Parent() != cl && pointerLike(prm.Type()) {
+										bad = append(bad, fmt.Sprintf("%s: the flight started in %s shares its caller's own variable %s: the callers that join receive an alias of the leader's variable, read after the flight ended", c.P.Pos(ret.Pos()), fn.Name(), prm.Name()))
+									}
+								}
+							}
+						}
+					}
+				}
+			}
+		}
+	}
+	sortStrings(bad)
+	bad = uniqStrings(bad)
+	o := c.R.Check(len(bad) == 0 && sites >= 4, rule, "SingleFlight users#shared-value", "no closure handed to SingleFlight.Do/DoEx returns a pointer-like parameter of its enclosing function (the shared value is made inside the flight)", "-", strings.Join(bad, "; "), bad, sites)
+	o.Sites = sites
 }
